@@ -475,6 +475,124 @@ let clone_mode (path : string) =
      done
    with End_of_file -> ())
 
+
+(* ---------------------------------------------------------------- descriptor mode (C16/C17)
+   input (hz -descr): per case  T <type tree>, D <path> <type> <bits>..., V <value tree>, K <ids of
+   string leaves>, X <path> <changed ids>..., P <variant type tree>, C <verdict> <verdict> <how>, E <i>.
+   The model (Model/Descr.v) derives the descriptors of T, walks V along every path of an X line,
+   derives the descriptors of P and compares the two tables; one line per comparison:
+   "same ..." or "DIFF ...". *)
+let xstr (a : string) : n list =
+  if String.length a = 0 || a.[0] <> 'x' then failwith ("bad string atom " ^ a)
+  else bytes_of_hex (String.sub a 1 (String.length a - 1))
+
+let rec parse_ty (ts : tok list) : gty * tok list =
+  match ts with
+  | LP :: Atom "L" :: Atom n :: RP :: r -> (TLeaf (xstr n), r)
+  | LP :: Atom "P" :: Atom n :: r ->
+      let (e, r1) = parse_ty r in
+      (match r1 with RP :: r2 -> (TPtr (xstr n, e), r2) | _ -> failwith "P")
+  | LP :: Atom "S" :: Atom n :: Atom it :: r ->
+      let (fs, r1) = parse_tfields r in (TStruct (xstr n, it = "1", fs), r1)
+  | _ -> failwith "bad type tree"
+and parse_tfields (ts : tok list) =
+  match ts with
+  | RP :: r -> ([], r)
+  | LP :: Atom "F" :: Atom name :: Atom ex :: Atom tag :: r ->
+      let (t, r1) = parse_ty r in
+      (match r1 with
+       | RP :: r2 -> let (fs, r3) = parse_tfields r2 in ((((xstr name, ex = "1"), xstr tag), t) :: fs, r3)
+       | _ -> failwith "F")
+  | _ -> failwith "bad field"
+
+let rec parse_val (ts : tok list) : gval * tok list =
+  match ts with
+  | LP :: Atom "l" :: Atom n :: Atom id :: RP :: r -> (VLeaf (xstr n, n_of_int (int_of_string id)), r)
+  | LP :: Atom "n" :: Atom n :: RP :: r -> (VNil (xstr n), r)
+  | LP :: Atom "p" :: Atom n :: r ->
+      let (v, r1) = parse_val r in
+      (match r1 with RP :: r2 -> (VPtr (xstr n, v), r2) | _ -> failwith "p")
+  | LP :: Atom "s" :: Atom n :: r -> let (fs, r1) = parse_vfields r in (VStruct (xstr n, fs), r1)
+  | _ -> failwith "bad value tree"
+and parse_vfields (ts : tok list) =
+  match ts with
+  | RP :: r -> ([], r)
+  | LP :: Atom "f" :: Atom name :: r ->
+      let (v, r1) = parse_val r in
+      (match r1 with
+       | RP :: r2 -> let (fs, r3) = parse_vfields r2 in ((xstr name, v) :: fs, r3)
+       | _ -> failwith "f")
+  | _ -> failwith "bad value field"
+
+let bits_of_cons (c : cons) : string =
+  (if c.c_index then "i" else "-") ^ (if c.c_unique then "u" else "-") ^
+  (if c.c_upper then "U" else "-") ^ (if c.c_lower then "L" else "-")
+
+let show_fd (d : fd) : string =
+  "x" ^ hex_of_bytes d.fd_path ^ " x" ^ hex_of_bytes d.fd_type ^ " " ^ bits_of_cons d.fd_cons
+
+let rec nat_of_int (i : int) : nat = if i <= 0 then O else S (nat_of_int (i - 1))
+
+let descr_mode (path : string) =
+  let ic = open_in path in
+  let ty = ref None and impl_ds = ref [] and value = ref None and strs = ref [] in
+  let rest l k = String.sub l k (String.length l - k) in
+  let flush_descr () =
+    match !ty with
+    | None -> ()
+    | Some t ->
+        let m = List.map show_fd (rec_fds t []) in
+        let i = List.rev !impl_ds in
+        if m = i then print_endline (Printf.sprintf "same descriptors %d" (List.length m))
+        else print_endline ("DIFF descriptors impl[" ^ String.concat "; " i ^ "] model[" ^ String.concat "; " m ^ "]");
+        impl_ds := []
+  in
+  let pending = ref false in
+  (try
+     while true do
+       let l = input_line ic in
+       if String.length l < 2 then ()
+       else begin
+         let tag = l.[0] in
+         if tag <> 'D' && !pending then (flush_descr (); pending := false);
+         match tag with
+         | 'T' -> ty := Some (fst (parse_ty (tokenize (rest l 2)))); impl_ds := []; pending := true
+         | 'D' -> impl_ds := rest l 2 :: !impl_ds
+         | 'V' -> value := Some (fst (parse_val (tokenize (rest l 2))))
+         | 'K' -> strs := List.filter (fun x -> x <> "") (String.split_on_char ',' (rest l 2))
+         | 'X' ->
+             (match String.split_on_char ' ' (rest l 2), !value with
+              | [p; changed], Some v ->
+                  let names = split_on dot (xstr p) in
+                  let target =
+                    match reach (nat_of_int 64) names v with
+                    | Some (VLeaf (_, id)) -> let s = string_of_int (int_of_n id) in if List.mem s !strs then s else "-"
+                    | _ -> "-" in
+                  if target = changed then print_endline ("same walk " ^ target)
+                  else print_endline ("DIFF walk path " ^ p ^ " impl changed [" ^ changed ^ "] model target [" ^ target ^ "]")
+              | _ -> print_endline ("DIFF bad X line " ^ l))
+         | 'P' ->
+             (match !ty with
+              | Some t ->
+                  let p = fst (parse_ty (tokenize (rest l 2))) in
+                  let m1 = field_descriptors t and m2 = field_descriptors p in
+                  let v o = match o with None -> "ok" | Some _ -> "refused" in
+                  value := None;
+                  strs := [v (compatible_with m1 m2); v (fields_compatible_with m1 m2)]
+              | None -> ())
+         | 'C' ->
+             (match String.split_on_char ' ' (rest l 2), !strs with
+              | c :: f :: _, [mc; mf] ->
+                  let norm x = if x = "ok" then "ok" else "refused" in
+                  if norm c = mc && norm f = mf then print_endline ("same compat " ^ mc ^ " " ^ mf)
+                  else print_endline ("DIFF compat impl[" ^ c ^ " " ^ f ^ "] model[" ^ mc ^ " " ^ mf ^ "]")
+              | _ -> print_endline ("DIFF bad C line " ^ l))
+         | _ -> ()
+       end
+     done
+   with End_of_file -> ());
+  if !pending then flush_descr ()
+
 (* ---------------------------------------------------------------- linearizability mode (C08)
    A concurrent history recorded on ONE handle (hz -lin): a sequential prefix in the usual trace
    format, the line "conc", then one line per concurrent call
@@ -589,6 +707,7 @@ let lin_mode (path : string) =
 let () =
   if Array.length Sys.argv > 2 && Sys.argv.(1) = "-lin" then (lin_mode Sys.argv.(2); exit 0);
   if Array.length Sys.argv > 2 && Sys.argv.(1) = "-snake" then (snake_mode Sys.argv.(2); exit 0);
+  if Array.length Sys.argv > 2 && Sys.argv.(1) = "-descr" then (descr_mode Sys.argv.(2); exit 0);
   if Array.length Sys.argv > 2 && Sys.argv.(1) = "-clone" then (clone_mode Sys.argv.(2); exit 0);
   let ic = if Array.length Sys.argv > 1 then open_in Sys.argv.(1) else stdin in
   let cur = ref [] in
